@@ -2176,6 +2176,7 @@ int EGLPNUM_TYPENAME_ILLlib_addcol (
 	EGLPNUM_TYPENAME_ILLlpdata *qslp;
 	EGLPNUM_TYPENAME_ILLmatrix *A;
 	int ncols;
+	int i;
 	char buf[ILL_namebufsize];
 	int pind, hit;
 	EGLPNUM_TYPE l, u;
@@ -2193,6 +2194,17 @@ int EGLPNUM_TYPENAME_ILLlib_addcol (
 	qslp = lp->O;
 	A = &qslp->A;
 	ncols = qslp->ncols;
+
+	/* validate the arguments before anything is modified */
+	for (i = 0; i < cnt; i++)
+	{
+		if (ind[i] < 0 || ind[i] >= qslp->nrows)
+		{
+			QSlog("EGLPNUM_TYPENAME_ILLlib_addcol called with bad row index: %d", ind[i]);
+			rval = 1;
+			ILL_CLEANUP;
+		}
+	}
 
 	if (qslp->rA)
 	{															/* After an addcol call, needs to be updated */
